@@ -24,6 +24,7 @@ import (
 // G is the generation context for one tx: every random choice is a rapid draw.
 type G struct {
 	T *rapid.T
+	H *History
 	W *World
 	S *Snapshot // committed state at block start
 	// busy marks accounts that must not be used as signer in this block
@@ -766,6 +767,11 @@ func genPriceMove(g *G) *Op {
 			cur = g.priceOf(d)
 		}
 	}
+	if (cur.IsNil() || cur.IsZero()) && g.H != nil {
+		if lp, ok := g.H.LastPrice[a]; ok {
+			cur = lp
+		}
+	}
 	if cur.IsNil() || cur.IsZero() {
 		cur = sdkmath.LegacyOneDec()
 	}
@@ -796,6 +802,12 @@ func genRefreshPrices(g *G) *Op {
 	msg := &oracletypes.MsgFeedMultiplePrices{Creator: f.Addr.String()}
 	for _, d := range g.W.Scenario.Denoms {
 		p := g.priceOf(d)
+		if !p.IsPositive() && g.H != nil {
+			// expired: fall back to the last price the harness saw (feeder comes back after an outage)
+			if lp, ok := g.H.LastPrice[displayOf(d)]; ok {
+				p = lp
+			}
+		}
 		if p.IsPositive() {
 			msg.FeedPrices = append(msg.FeedPrices, oracletypes.FeedPrice{Asset: displayOf(d), Price: p, Source: "elys"})
 		}
@@ -822,7 +834,7 @@ func genMCClaim(g *G) *Op {
 			ids = append(ids, p.PoolId)
 		}
 	}
-	if g.Bool("claimusdc") {
+	if g.Bool("claimusdc") || len(ids) == 0 {
 		ids = append(ids, uint64(sstypes.PoolId))
 	}
 	return &Op{Signer: u, Kind: "masterchef.claim", Msg: &mctypes.MsgClaimRewards{Sender: u.Addr.String(), PoolIds: ids}}
